@@ -77,6 +77,8 @@ def make_case(tier, seed, index):
     fam, var, tr = CONFIGS[ci]
     return {"family": fam, "variant": var, "transport": tr, "slot": slot, "chunk": ch, "rep_only": rep_only,
             "seed": (seed * 9176 + index) & 0xFFFFFF, "benign": index % 4 == 3,
+            # the application runs the library's logger at DEBUG level
+            "debug_log": index % 7 == 2,
             # a peer that appends surplus bytes to every RTU answer (accepted by the library, see C02)
             "trailing": ["", "", "0000", "a55a", "12345678"][(index // 2) % 5] if tr == "udp" and fam != "ES" else ""}
 
@@ -85,6 +87,8 @@ def simplify(case):
     out = []
     if case.get("benign"):
         out.append(dict(case, benign=False))
+    if case.get("debug_log"):
+        out.append(dict(case, debug_log=False))
     if case.get("trailing"):
         out.append(dict(case, trailing=""))
     if "only_value" not in case:
